@@ -175,7 +175,7 @@ func mkFrame(es []entry) frame.Frame {
 }
 
 var (
-	trs = []telem.TimeRange{{}, {Start: 10, End: 20}, {Start: 15, End: 30}}
+	trs = []telem.TimeRange{{}, {Start: 10, End: 20}, {Start: 15, End: 30}, {Start: 25, End: 25}}
 )
 
 // frames enumerates the bounded frame space over the given channel subset.
@@ -544,7 +544,7 @@ func main() {
 	r.Set("exhaustive", !time.Now().After(r.Deadline()))
 	r.Sample(map[string]any{"frame": "k1 two contiguous series + k2 one series, reversed key order", "kind": "round-trip"})
 	r.Sample(map[string]any{"bytes": "3f01000000ffffff7f", "kind": "arbitrary bytes: all flags, seq 1, length 2^31-1"})
-	r.Set("rule", "frames: per channel 0-2 series x lengths {0,1,2} x time ranges {zero, A, B} x alignments {0, a, contiguous, gapped, equal, earlier domain}, channel subsets, reversed key order, codecs over the full and the exact key set, with/without alignment compression, Encode/Decode and EncodeStream/DecodeStream alternating; dynamic codecs 1-3 updates with encoder/decoder 0-2 updates apart, with and without use between updates; bytes: all strings up to length 4 (thorough 5) over {00,01,02,7f,80,fe,ff} after each of the 64 flag bytes, boundary lengths after a valid sequence number, every truncation and every 4-byte field mutation of valid encodings, data frames before the first update. distinct_nontrivial = distinct flag bytes the encoder produced")
+	r.Set("rule", "frames: per channel 0-2 series x lengths {0,1,2} x time ranges {zero, A, B, a non-zero instant} x alignments {0, a, contiguous, gapped, equal, earlier domain}, channel subsets, reversed key order, codecs over the full and the exact key set, with/without alignment compression, Encode/Decode and EncodeStream/DecodeStream alternating; dynamic codecs 1-3 updates with encoder/decoder 0-2 updates apart, with and without use between updates; bytes: all strings up to length 4 (thorough 5) over {00,01,02,7f,80,fe,ff} after each of the 64 flag bytes, boundary lengths after a valid sequence number, every truncation and every 4-byte field mutation of valid encodings, data frames before the first update. distinct_nontrivial = distinct flag bytes the encoder produced")
 	r.Assume("go1.26.8 toolchain; allocation measured with runtime.MemStats.TotalAlloc around each Decode in a single-threaded loop (bound 64*len+512KiB); decode of arbitrary bytes uses a static codec over 4 channels (u8, i64, string, f32)")
 	r.Finish()
 }
